@@ -89,6 +89,9 @@ GALLERY = [
     ("<D>(deps: &D, s: &str) -> usize where for<'a, 'b> D: GP<'a> + GM<'b>, D: ::core::marker::Sync", "{ deps.gp(s).len() + deps.gm(s) }", "\"abcd\"", "7",
      ("", None), "pub trait GP<'a> { fn gp(&self, s: &'a str) -> &'a str; } pub trait GM<'a> { fn gm(&self, s: &'a str) -> usize; }\n"
                  "impl<'a, T> GP<'a> for ::entrait::Impl<T> { fn gp(&self, s: &'a str) -> &'a str { &s[1..] } } impl<'a, T> GM<'a> for ::entrait::Impl<T> { fn gm(&self, s: &'a str) -> usize { s.len() } }"),
+    # a destructuring pattern whose single binding is named like the fn itself, next to patterns without any usable name
+    ("<D>(deps: &D, Wrap(subj): Wrap, (dx, dy): (u32, u32)) -> u32", "{ subj + dx + dy }", "Wrap(1), (2, 3)", "6", ("", None), "pub struct Wrap(pub u32);"),
+    ("<D>(deps: &D, _: bool, &subj: &u32, [a, b]: [u32; 2], Wrap(arg1): Wrap) -> u32", "{ subj + a + b + arg1 }", "true, &1, [2, 3], Wrap(4)", "10", ("", None), "pub struct Wrap(pub u32);"),
     ("<'a, D, T: ::core::default::Default + ::core::fmt::Debug, const N: usize>(deps: &'a D, s: &'a str) -> (::std::string::String, &'a str)",
      "{ (::std::format!(\"{:?}{}\", T::default(), N), s) }", "\"s\"", "(\"05\", \"s\")", ("::<_, i8, 5>", "Subj::<i8, 5>::subj(&app, \"s\")")),
 ]
